@@ -2,6 +2,11 @@
 
 package gtree
 
+import (
+	"os"
+	"path/filepath"
+)
+
 // Contracts for the gvc verifier (/verif). This file is compiled only with the build tag
 // "verif"; it adds no behaviour to the package. The //@ lines are the contract language of
 // /verif/DESIGN.md; the Go functions below are pure specification functions (the oracles)
@@ -185,6 +190,8 @@ func specPath(n *Node) string {
 //@   modifies current.brnch.value, current.brnch.path
 //@   ensures branch [C01,C03,C05,C13]: current.brnch.value == specBranch(dg.lastNodeFormat, dg.intermedialNodeFormat, current)
 //@   ensures noval [C01]: !dg.enabledValidation ==> result == nil
+//@   ensures valid [C07,C09]: dg.enabledValidation && result == nil ==> validElem(current.name) && fsValid(specNodePath(current))
+//@   ensures complete [C09]: validElem(current.name) && fsValid(specNodePath(current)) ==> result == nil
 //@ loop gtree.defaultGrowerSimple.assembleBranch#1
 //@   invariant up: tmpParent != nil && tmpParent.hierarchy < current.hierarchy && (tmpParent.hierarchy == 1 || tmpParent.parent != nil)
 //@   invariant pre: specPrefix(dg.lastNodeFormat, dg.intermedialNodeFormat, tmpParent) ++ current.brnch.value == specPrefix(dg.lastNodeFormat, dg.intermedialNodeFormat, current.parent) ++ specConn(dg.lastNodeFormat, dg.intermedialNodeFormat, current)
@@ -192,6 +199,8 @@ func specPath(n *Node) string {
 
 //@ func gtree.Node.validatePath
 //@   requires nn: n != nil
+//@   ensures elem [C07]: result == nil ==> validElem(n.name)
+//@   ensures complete [C09]: validElem(n.name) && fsValid(specNodePath(n)) ==> result == nil
 //@   ensures slash [C07]: result == nil ==> noSlashFrom(n.name, 0)
 //@   ensures valid [C07]: result == nil ==> (n.hierarchy == 1 ? fsValid(n.name) : fsValid(n.brnch.path))
 
@@ -263,6 +272,9 @@ func lemmaDescUnique(a, b, n *Node) {
 	}
 }
 
+// validated(r): every node of the subtree of r has a name that is a single valid path element and a stored path that fs.ValidPath accepts.
+//@ pred validated(r *Node): forall m *Node :: {specDesc(r, m)} specDesc(r, m) ==> validElem(m.name) && fsValid(specNodePath(m))
+
 //@ func gtree.defaultGrowerSimple.assemble
 //@   requires nn: dg != nil && current != nil
 //@   requires attached: current.hierarchy == 1 || current.parent != nil
@@ -270,8 +282,13 @@ func lemmaDescUnique(a, b, n *Node) {
 //@   use lemma lemmaDescLevel, lemmaDescThroughChild, lemmaDescUp, lemmaDescUnique
 //@   ensures subtree [C01,C03,C05]: result == nil ==> (forall n *Node :: {specDesc(current, n)} specDesc(current, n) ==> n.brnch.value == specBranch(dg.lastNodeFormat, dg.intermedialNodeFormat, n))
 //@   ensures stable: forall n *Node :: {n.brnch.value} !specDesc(current, n) ==> n.brnch.value == old(n.brnch.value)
+//@   ensures stablePath: forall n *Node :: {n.brnch.path} !specDesc(current, n) ==> n.brnch.path == old(n.brnch.path)
 //@   ensures noval [C01]: !dg.enabledValidation ==> result == nil
+//@   ensures valid [C07,C09]: dg.enabledValidation && result == nil ==> validated(current)
 //@ loop gtree.defaultGrowerSimple.assemble#1
+//@   invariant selfValid: dg.enabledValidation ==> validElem(current.name) && fsValid(specNodePath(current))
+//@   invariant doneValid: dg.enabledValidation ==> (forall j int, n *Node :: {specDesc(current.children[j], n)} 0 <= j && j < $i && specDesc(current.children[j], n) ==> validElem(n.name) && fsValid(specNodePath(n)))
+//@   invariant stablePath: forall n *Node :: {n.brnch.path} !specDesc(current, n) ==> n.brnch.path == old(n.brnch.path)
 //@   invariant self: current.brnch.value == specBranch(dg.lastNodeFormat, dg.intermedialNodeFormat, current)
 //@   invariant done: forall j int, n *Node :: {specDesc(current.children[j], n)} 0 <= j && j < $i && specDesc(current.children[j], n) ==> n.brnch.value == specBranch(dg.lastNodeFormat, dg.intermedialNodeFormat, n)
 //@   invariant stable: forall n *Node :: {n.brnch.value} !specDesc(current, n) ==> n.brnch.value == old(n.brnch.value)
@@ -283,7 +300,9 @@ func lemmaDescUnique(a, b, n *Node) {
 //@   use lemma lemmaDescLevel, lemmaDescUnique
 //@   ensures grown [C01,C03,C05]: result == nil ==> (forall k int, n *Node :: {specDesc(roots[k], n)} 0 <= k && k < len(roots) && specDesc(roots[k], n) ==> n.brnch.value == specBranch(dg.lastNodeFormat, dg.intermedialNodeFormat, n))
 //@   ensures noval [C01]: !dg.enabledValidation ==> result == nil
+//@   ensures valid [C07,C09]: dg.enabledValidation && result == nil ==> (forall k int :: {roots[k]} 0 <= k && k < len(roots) ==> validated(roots[k]))
 //@ loop gtree.defaultGrowerSimple.grow#1
+//@   invariant doneValid: dg.enabledValidation ==> (forall k int, n *Node :: {specDesc(roots[k], n)} 0 <= k && k < $i && specDesc(roots[k], n) ==> validElem(n.name) && fsValid(specNodePath(n)))
 //@   invariant done: forall k int, n *Node :: {specDesc(roots[k], n)} 0 <= k && k < $i && specDesc(roots[k], n) ==> n.brnch.value == specBranch(dg.lastNodeFormat, dg.intermedialNodeFormat, n)
 
 // ---------------------------------------------------------------------------------------------
@@ -545,7 +564,7 @@ func specPreorderAll(roots []*Node, i int) []*Node {
 // simple_tree.go
 
 // simpleTreeOK(t, cfg): t is the treeSimple that newTreeSimple builds for cfg.
-//@ pred simpleTreeOK(t *treeSimple, cfg *config): t != nil && cfg != nil && t.grower != nil && t.spreader != nil && t.growSpreader != nil && t.walker != nil && t.mkdirer != nil && t.verifier != nil && (cfg.encode != encodeDefault ==> isType(t.grower, nopGrowerSimple)) && (cfg.encode == encodeDefault ==> isType(t.grower, defaultGrowerSimple) && as(t.grower, defaultGrowerSimple).lastNodeFormat == cfg.lastNodeFormat && as(t.grower, defaultGrowerSimple).intermedialNodeFormat == cfg.intermedialNodeFormat) && (cfg.dryrun ==> isType(t.spreader, colorizeSpreaderSimple)) && (!cfg.dryrun && cfg.encode == encodeDefault ==> isType(t.spreader, defaultSpreaderSimple)) && (!cfg.dryrun && cfg.encode >= encodeJSON && cfg.encode <= encodeTOML ==> isType(t.spreader, formattedSpreaderSimple)) && isType(t.growSpreader, defaultGrowSpreaderSimple) && as(t.growSpreader, defaultGrowSpreaderSimple).defaultGrowerSimple != nil && as(t.growSpreader, defaultGrowSpreaderSimple).defaultGrowerSimple.lastNodeFormat == cfg.lastNodeFormat && as(t.growSpreader, defaultGrowSpreaderSimple).defaultGrowerSimple.intermedialNodeFormat == cfg.intermedialNodeFormat && !as(t.growSpreader, defaultGrowSpreaderSimple).defaultGrowerSimple.enabledValidation && isType(t.walker, defaultWalkerSimple) && isType(t.mkdirer, defaultMkdirerSimple) && isType(t.verifier, defaultVerifierSimple)
+//@ pred simpleTreeOK(t *treeSimple, cfg *config): t != nil && cfg != nil && t.grower != nil && t.spreader != nil && t.growSpreader != nil && t.walker != nil && t.mkdirer != nil && t.verifier != nil && (cfg.encode != encodeDefault ==> isType(t.grower, nopGrowerSimple)) && (cfg.encode == encodeDefault ==> isType(t.grower, defaultGrowerSimple) && as(t.grower, defaultGrowerSimple).lastNodeFormat == cfg.lastNodeFormat && as(t.grower, defaultGrowerSimple).intermedialNodeFormat == cfg.intermedialNodeFormat) && (cfg.dryrun ==> isType(t.spreader, colorizeSpreaderSimple)) && (!cfg.dryrun && cfg.encode == encodeDefault ==> isType(t.spreader, defaultSpreaderSimple)) && (!cfg.dryrun && cfg.encode >= encodeJSON && cfg.encode <= encodeTOML ==> isType(t.spreader, formattedSpreaderSimple)) && isType(t.growSpreader, defaultGrowSpreaderSimple) && as(t.growSpreader, defaultGrowSpreaderSimple).defaultGrowerSimple != nil && as(t.growSpreader, defaultGrowSpreaderSimple).defaultGrowerSimple.lastNodeFormat == cfg.lastNodeFormat && as(t.growSpreader, defaultGrowSpreaderSimple).defaultGrowerSimple.intermedialNodeFormat == cfg.intermedialNodeFormat && !as(t.growSpreader, defaultGrowSpreaderSimple).defaultGrowerSimple.enabledValidation && isType(t.walker, defaultWalkerSimple) && isType(t.mkdirer, defaultMkdirerSimple) && as(t.mkdirer, defaultMkdirerSimple).fileConsiderer != nil && as(t.mkdirer, defaultMkdirerSimple).fileConsiderer.extensions == cfg.fileExtensions && as(t.mkdirer, defaultMkdirerSimple).targetDir == (len(cfg.targetDir) != 0 ? cfg.targetDir : ".") && isType(t.verifier, defaultVerifierSimple)
 
 //@ func gtree.newTreeSimple
 //@   requires nn: cfg != nil
@@ -669,6 +688,9 @@ func specPreorderAll(roots []*Node, i int) []*Node {
 //@   invariant open: stack != nil ==> chain(stack)
 //@   invariant closed [C02]: stack == nil ==> len(roots) == 0
 //@   decreases len(rg.scanner.lines) - rg.scanner.pos
+
+// allRootsT(rs): a marker term (always true) used as a trigger for existential statements about a forest.
+func allRootsT(rs []*Node) bool { return true }
 
 // allRoots(rs): a forest as the generators produce it.
 //@ pred allRoots(rs []*Node): forall k int :: {rs[k]} 0 <= k && k < len(rs) ==> rs[k] != nil && rs[k].hierarchy == 1
@@ -797,3 +819,179 @@ func lemmaRawAllIsRenderAll(last, mid branchFormat, roots []*Node, i int) {
 //@   assumed
 //@   param rootIter follows grownStream
 //@   yields errStream
+
+// ---------------------------------------------------------------------------------------------
+// file_considerer.go, simple_tree_mkdirer.go — over the trace model of /verif/gvc/trusted/fs.spec
+
+// fpJoin2: filepath.Join of two elements; uninterpreted in the logic (constrained by the path axioms only).
+//@ spec gtree.fpJoin2
+//@   opaque
+func fpJoin2(a, b string) string { return filepath.Join(a, b) }
+
+func specHasSuffix(s, suffix string) bool {
+	return len(suffix) <= len(s) && s[len(s)-len(suffix):] == suffix
+}
+
+func specTrimSuffix(s, suffix string) string {
+	if specHasSuffix(s, suffix) {
+		return s[:len(s)-len(suffix)]
+	}
+	return s
+}
+
+// specAnySuffix: one of the extensions ext[i:] is a suffix of name.
+//@ spec gtree.specAnySuffix
+//@   decreases len(ext) - i
+func specAnySuffix(name string, ext []string, i int) bool {
+	if i < 0 || i >= len(ext) {
+		return false
+	}
+	return specHasSuffix(name, ext[i]) || specAnySuffix(name, ext, i+1)
+}
+
+// specIsFile: "a childless node whose name ends with a configured extension".
+func specIsFile(ext []string, n *Node) bool {
+	return len(n.children) == 0 && specAnySuffix(n.name, ext, 0)
+}
+
+// specNodePath: the stored path of a node (Node.path()).
+func specNodePath(n *Node) string {
+	if n.hierarchy == 1 {
+		return n.name
+	}
+	return n.brnch.path
+}
+
+// specMkOps: the file system operations Mkdir performs for the subtree of n, in order:
+// "D"+p = os.MkdirAll(p), "F"+p = os.Create(p).
+//@ spec gtree.specMkOps
+//@   requires nn: n != nil
+//@   decreases down(n), 1, 0
+func specMkOps(target string, ext []string, n *Node) []string {
+	if specIsFile(ext, n) {
+		return []string{"D" + fpJoin2(target, specTrimSuffix(specNodePath(n), n.name)), "F" + fpJoin2(target, specNodePath(n))}
+	}
+	if len(n.children) == 0 {
+		return []string{"D" + fpJoin2(target, specNodePath(n))}
+	}
+	return specMkOpsKids(target, ext, n, len(n.children))
+}
+
+//@ spec gtree.specMkOpsKids
+//@   requires nn: n != nil
+//@   decreases down(n), 0, i
+func specMkOpsKids(target string, ext []string, n *Node, i int) []string {
+	if i <= 0 || i > len(n.children) {
+		return nil
+	}
+	return append(specMkOpsKids(target, ext, n, i-1), specMkOps(target, ext, n.children[i-1])...)
+}
+
+//@ spec gtree.specMkOpsAll
+//@   decreases i
+func specMkOpsAll(target string, ext []string, roots []*Node, i int) []string {
+	if i <= 0 || i > len(roots) {
+		return nil
+	}
+	return append(specMkOpsAll(target, ext, roots, i-1), specMkOps(target, ext, roots[i-1])...)
+}
+
+// specAnyRootExists: one of the roots[i:] already exists under target.
+//@ spec gtree.specAnyRootExists
+//@   decreases len(roots) - i
+func specAnyRootExists(target string, roots []*Node, i int) bool {
+	if i < 0 || i >= len(roots) {
+		return false
+	}
+	return fsExistsAt(fpJoin2(target, specNodePath(roots[i]))) || specAnyRootExists(target, roots, i+1)
+}
+
+// fsExistsAt: existence as reported by os.Stat before the call writes anything (uninterpreted).
+//@ spec gtree.fsExistsAt
+//@   opaque
+func fsExistsAt(p string) bool { _, err := os.Stat(p); return !os.IsNotExist(err) }
+
+//@ func gtree.fileConsiderer.isFile
+//@   requires nn: fc != nil && current != nil
+//@   ensures isfile [C06,C09]: result == specIsFile(fc.extensions, current)
+//@ loop gtree.fileConsiderer.isFile#1
+//@   invariant none: specAnySuffix(current.name, fc.extensions, 0) == specAnySuffix(current.name, fc.extensions, $i)
+
+//@ func gtree.defaultMkdirerSimple.mkdirAll
+//@   modifies fsOps, fsFailed
+//@   ensures ok [C06]: result == nil ==> fsOps == old(fsOps) ++ seqof("D" ++ dir) && fsFailed == old(fsFailed)
+//@   ensures fail [C06]: result != nil ==> fsFailed
+//@   ensures sticky: old(fsFailed) ==> fsFailed
+
+//@ func gtree.defaultMkdirerSimple.mkfile
+//@   modifies fsOps, fsFailed
+//@   ensures ok [C06]: result == nil ==> fsOps == old(fsOps) ++ seqof("F" ++ path) && fsFailed == old(fsFailed)
+//@   ensures fail [C06]: result != nil ==> fsFailed
+//@   ensures sticky: old(fsFailed) ==> fsFailed
+
+//@ func gtree.defaultMkdirerSimple.makeDirectoriesAndFiles
+//@   requires nn: dm != nil && dm.fileConsiderer != nil && current != nil
+//@   modifies fsOps, fsFailed
+//@   decreases down(current)
+//@   ensures ops [C06]: result == nil ==> fsOps == old(fsOps) ++ specMkOps(dm.targetDir, dm.fileConsiderer.extensions, current) && fsFailed == old(fsFailed)
+//@   ensures fail [C06]: result != nil ==> fsFailed
+//@   ensures sticky: old(fsFailed) ==> fsFailed
+//@ loop gtree.defaultMkdirerSimple.makeDirectoriesAndFiles#1
+//@   invariant sofar: fsOps == old(fsOps) ++ specMkOpsKids(dm.targetDir, dm.fileConsiderer.extensions, current, $i) && fsFailed == old(fsFailed)
+
+//@ func gtree.defaultMkdirerSimple.isExistRoot
+//@   requires nn: dm != nil
+//@   requires roots: forall k int :: {roots[k]} 0 <= k && k < len(roots) ==> roots[k] != nil
+//@   ensures exists [C06]: result == specAnyRootExists(dm.targetDir, roots, 0)
+//@ loop gtree.defaultMkdirerSimple.isExistRoot#1
+//@   invariant none: specAnyRootExists(dm.targetDir, roots, 0) == specAnyRootExists(dm.targetDir, roots, $i)
+
+//@ func gtree.defaultMkdirerSimple.mkdir
+//@   requires nn: dm != nil && dm.fileConsiderer != nil
+//@   requires roots: forall k int :: {roots[k]} 0 <= k && k < len(roots) ==> roots[k] != nil
+//@   modifies fsOps, fsFailed
+//@   ensures exists [C06]: specAnyRootExists(dm.targetDir, roots, 0) ==> result == ErrExistPath && fsOps == old(fsOps) && fsFailed == old(fsFailed)
+//@   ensures ops [C06]: result == nil ==> fsOps == old(fsOps) ++ specMkOpsAll(dm.targetDir, dm.fileConsiderer.extensions, roots, len(roots)) && fsFailed == old(fsFailed)
+//@   ensures fail [C06]: !specAnyRootExists(dm.targetDir, roots, 0) && result != nil ==> fsFailed
+//@ loop gtree.defaultMkdirerSimple.mkdir#1
+//@   invariant sofar: fsOps == old(fsOps) ++ specMkOpsAll(dm.targetDir, dm.fileConsiderer.extensions, roots, $i) && fsFailed == old(fsFailed)
+
+// ---------------------------------------------------------------------------------------------
+// Mkdir routes of treeSimple
+
+//@ func gtree.treeSimple.mkdir
+//@   requires ok: simpleTreeOK(t, cfg)
+//@   modifies Node.children, Node.parent, Node.brnch.value, Node.brnch.path, list.List.view, list.Element.backOf, counter.n, bufio.Scanner.pos, bufio.Scanner.failed, markdown.Parser.isSharpRoot, markdown.Parser.spaces, markdown.Parser.sep, fsOps, fsFailed, defaultGrowerSimple.enabledValidation
+//@   ensures ops [C06]: cfg.encode == encodeDefault && result == nil ==> (exists rs []*Node :: {witness(roots)} allRoots(rs) && !specAnyRootExists(as(t.mkdirer, defaultMkdirerSimple).targetDir, rs, 0) && fsOps == old(fsOps) ++ specMkOpsAll(as(t.mkdirer, defaultMkdirerSimple).targetDir, cfg.fileExtensions, rs, len(rs)) && fsFailed == old(fsFailed))
+//@   ensures validated [C07]: cfg.encode == encodeDefault && fsOps != old(fsOps) ==> (exists rs []*Node :: {witness(roots)} allRootsT(rs) && (forall k int :: {rs[k]} 0 <= k && k < len(rs) ==> validated(rs[k])))
+//@   ensures failed [C06]: result == nil ==> fsFailed == old(fsFailed)
+//@   ensures dryrun [C09]: cfg.dryrun ==> fsOps == old(fsOps)
+
+//@ func gtree.treeSimple.mkdirProgrammably
+//@   requires ok: simpleTreeOK(t, cfg) && root != nil && root.hierarchy == 1
+//@   modifies Node.brnch.value, Node.brnch.path, fsOps, fsFailed, defaultGrowerSimple.enabledValidation, out, wfail, counter.n
+//@   ensures ops [C06,C03]: cfg.encode == encodeDefault && !cfg.dryrun && result == nil ==> !fsExistsAt(fpJoin2(as(t.mkdirer, defaultMkdirerSimple).targetDir, root.name)) && fsOps == old(fsOps) ++ specMkOps(as(t.mkdirer, defaultMkdirerSimple).targetDir, cfg.fileExtensions, root) && fsFailed == old(fsFailed)
+//@   ensures exists [C06]: cfg.encode == encodeDefault && !cfg.dryrun && fsExistsAt(fpJoin2(as(t.mkdirer, defaultMkdirerSimple).targetDir, root.name)) ==> result != nil && fsOps == old(fsOps)
+//@   ensures validated [C07]: cfg.encode == encodeDefault && fsOps != old(fsOps) ==> validated(root)
+//@   ensures failed [C06]: !cfg.dryrun && result == nil ==> fsFailed == old(fsFailed)
+//@   ensures dryrun [C09]: cfg.dryrun ==> fsOps == old(fsOps) && fsFailed == old(fsFailed)
+
+//@ func gtree.treePipeline.mkdir
+//@   assumed
+//@   modifies Node.children, Node.parent, Node.brnch.value, Node.brnch.path, list.List.view, list.Element.backOf, counter.n, bufio.Scanner.pos, bufio.Scanner.failed, markdown.Parser.isSharpRoot, markdown.Parser.spaces, markdown.Parser.sep, fsOps, fsFailed, defaultGrowerSimple.enabledValidation
+//@ func gtree.treePipeline.mkdirProgrammably
+//@   assumed
+//@   modifies Node.brnch.value, Node.brnch.path, fsOps, fsFailed, defaultGrowerSimple.enabledValidation, out, wfail, counter.n
+
+//@ contract fromMarkdownMkdir
+//@   modifies Node.children, Node.parent, Node.brnch.value, Node.brnch.path, list.List.view, list.Element.backOf, counter.n, bufio.Scanner.pos, bufio.Scanner.failed, markdown.Parser.isSharpRoot, markdown.Parser.spaces, markdown.Parser.sep, fsOps, fsFailed, defaultGrowerSimple.enabledValidation
+//@   ensures mkdir [C06,C12]: exists c *config :: {witness(cfg)} fresh(c) && (!c.massive && c.encode == encodeDefault && result == nil ==> fsFailed == old(fsFailed) && (exists rs []*Node :: {specMkOpsAll((len(c.targetDir) != 0 ? c.targetDir : "."), c.fileExtensions, rs, len(rs))} allRoots(rs) && !specAnyRootExists((len(c.targetDir) != 0 ? c.targetDir : "."), rs, 0) && fsOps == old(fsOps) ++ specMkOpsAll((len(c.targetDir) != 0 ? c.targetDir : "."), c.fileExtensions, rs, len(rs))))
+//@   ensures validated [C07,C12]: exists c *config :: {witness(cfg)} fresh(c) && (!c.massive && c.encode == encodeDefault && fsOps != old(fsOps) ==> (exists rs []*Node :: {allRootsT(rs)} allRootsT(rs) && (forall k int :: {rs[k]} 0 <= k && k < len(rs) ==> validated(rs[k]))))
+//@ applies fromMarkdownMkdir to gtree.MkdirFromMarkdown, gtree.Mkdir
+
+//@ contract fromRootMkdir
+//@   modifies Node.brnch.value, Node.brnch.path, fsOps, fsFailed, defaultGrowerSimple.enabledValidation, out, wfail, counter.n
+//@   ensures nilnode [C03]: root == nil ==> result == ErrNilNode && fsOps == old(fsOps)
+//@   ensures notroot [C03]: root != nil && root.hierarchy != 1 ==> result == ErrNotRoot && fsOps == old(fsOps)
+//@   ensures mkdir [C03,C06,C07,C09,C12]: root != nil && root.hierarchy == 1 ==> (exists c *config :: {c.massive} fresh(c) && (!c.massive && c.encode == encodeDefault ==> (c.dryrun ==> fsOps == old(fsOps) && fsFailed == old(fsFailed)) && (!c.dryrun && result == nil ==> fsFailed == old(fsFailed) && !fsExistsAt(fpJoin2((len(c.targetDir) != 0 ? c.targetDir : "."), root.name)) && fsOps == old(fsOps) ++ specMkOps((len(c.targetDir) != 0 ? c.targetDir : "."), c.fileExtensions, root)) && (fsOps != old(fsOps) ==> validated(root))))
+//@ applies fromRootMkdir to gtree.MkdirFromRoot, gtree.MkdirProgrammably
